@@ -8,6 +8,19 @@ import sys
 VERIF = os.path.dirname(os.path.dirname(os.path.abspath(__file__)))
 
 CLAIMED = {
+    "C01": dict(
+        technique="aggregate of path/table rules: claim-before-read over all decoder paths, bounded-copy rule at every memcpy, cbor_load window/drain/outcome path rules, loop recogniser + SCC descent, stack gate, discriminated-union typestate at all internal call sites, nullness",
+        text="Decided through the mechanisms the property's anchors name, each for all inputs: every buffer byte the decoder "
+             "reads is below what claim_bytes granted on that path; every memcpy targets a fresh block of exactly the copied "
+             "length or the guarded serializer window; cbor_load passes a consistent remainder window, drains the decoding "
+             "stack on every failure path and returns only the root of a clean run; all 27 loops are recognised counting "
+             "loops or the two named loops, all recursive cycles descend the tree or pop a frame; the stack gate bounds "
+             "nesting; all ~330 internal call-site x CBOR_ASSERT type/width/flavour preconditions are established on their "
+             "paths; no possibly-NULL allocation result is dereferenced.",
+        note="Not decided: value-dependent assertions (subitems > 0, codepoint_count <= length, ...), UB-freedom of value "
+             "computations (half-float shifts), and behaviour of client code. Loops are generalised from 0/1/2 unrollings by "
+             "their recognised uniform shape.",
+        design="§4 C01"),
     "C02": dict(
         technique="decoder action table vs RFC reference for all 256 initial bytes; builder wiring / counter / typestate rules over every path of the 24 builder callbacks and _cbor_builder_append; predicate algebra for the break discipline",
         text="Necessary conditions of faithful decoding, each decided for every input: T-dispatch equals the RFC 8949 "
